@@ -236,6 +236,7 @@ func cmdVerify(args []string) int {
 	assumed := fs.String("assumed", "/verif/contracts/assumed", "assumed contracts dir")
 	overlayF := fs.String("overlay", "", "JSON file {path: replacement path} applied to the load (self-test mutants)")
 	verbose := fs.Bool("v", false, "verbose")
+	bounded := fs.Int("bounded", 0, "bounded concretisation: ignore loop specs, unroll every loop up to N iterations (failing-input search only)")
 	fs.Parse(args)
 
 	var overlay map[string][]byte
@@ -317,7 +318,14 @@ func cmdVerify(args []string) int {
 			continue
 		}
 		x := newExec(p, db, shortUnit(key))
+		if fn.Pkg != nil {
+			x.useOpaque(fn.Pkg.Pkg.Path())
+		}
 		x.pruner = newPruner()
+		if *bounded > 0 {
+			x.bounded = *bounded
+			x.maxPaths = 30000
+		}
 		err := x.verifyFunc(fn, c)
 		x.pruner.close()
 		ur.Pruned = x.pruner.pruned
